@@ -321,6 +321,36 @@ class Bound(V):
         return '<bound %s>' % self.func.name
 
 
+class RegexV(V):
+    tag = 'regex'
+
+    def __init__(self, pattern, flags=0):
+        self.pattern = pattern
+        self.flags = flags
+
+    def key(self):
+        return ('re', self.pattern, self.flags)
+
+    def __repr__(self):
+        return 're(%r)' % self.pattern
+
+
+class MatchV(V):
+    """A successful match: concrete groups (Const) or symbolic (Atom group(i) of the subject)."""
+    tag = 'match'
+
+    def __init__(self, regex, subject, groups):
+        self.regex = regex
+        self.subject = subject
+        self.groups = groups        # list of V, index 0 = whole match
+
+    def key(self):
+        return ('match', self.regex.key(), k(self.subject))
+
+    def __repr__(self):
+        return 'match(%r, %r)' % (self.regex.pattern, self.subject)
+
+
 class SuperV(V):
     tag = 'super'
 
@@ -814,12 +844,20 @@ class Interp(object):
                 self.block(s.orelse, fr)
         elif isinstance(s, ast.While):
             n = 0
+            symbolic = 0
             while True:
                 n += 1
                 if n > MAX_LOOP:
                     self.imprecise('while loop bound')
                     break
-                if not self.truth(self.expr(s.test, fr), src(s.test)):
+                tv = self.expr(s.test, fr)
+                if not isinstance(tv, Const):
+                    symbolic += 1
+                    if symbolic > 3:
+                        # a loop steered by unknown values: do not enumerate its iterations
+                        self.imprecise('loop on a symbolic condition (%s)' % src(s.test))
+                        break
+                if not self.truth(tv, src(s.test)):
                     self.block(s.orelse, fr)
                     break
                 try:
